@@ -36,12 +36,12 @@ theorem opOK_of_clean (op : Op) (h : opClean op = true) : opOK op = true := by
   | setStatus c => simp only [opClean, Bool.and_eq_true] at h; simp only [opOK, Bool.and_eq_true]; exact h.1
   | setHeader n v =>
     simp only [opClean, Bool.and_eq_true] at h
-    simp only [opOK, Bool.and_eq_true, Bool.or_eq_true]
-    exact ⟨⟨h.1.1.1, h.1.1.2⟩, Or.inl h.1.2⟩
+    simp only [opOK, Bool.and_eq_true]
+    exact ⟨h.1.1.1, h.1.1.2⟩
   | addHeader n v =>
     simp only [opClean, Bool.and_eq_true] at h
     simp only [opOK, Bool.and_eq_true]
-    exact ⟨⟨h.1.1.1.1.1, h.1.1.1.1.2⟩, h.1.1.1.2⟩
+    exact ⟨h.1.1.1.1.1, h.1.1.1.1.2⟩
   | clearHeader n => rfl
   | write b => rfl
   | flush => rfl
@@ -198,14 +198,21 @@ theorem hFlush_stream (rq : Req) (s : St) (K : Nat) (ci : CI rq s K) (hm : (rq.m
     (hFlush rq s).2 = false ∧ CI rq (hFlush rq s).1 (if s.headersWritten then K else s.status) ∧
     (hFlush rq s).1.headersWritten = true ∧ (hFlush rq s).1.buf = [] ∧ (hFlush rq s).1.status = s.status ∧
     (hFlush rq s).1.conn.sent.flatten = s.conn.sent.flatten ++ s.buf.flatten := by
-  obtain ⟨wq, hqw, _⟩ := hFlush_spec rq s ci.wf
+  -- no Content-Length in the map: `flush()`'s check passes
+  have hcv : s.headersWritten = false → clValid s.hdrs = true := fun h => clValid_absent _ (ci.ncl h)
+  have hcore : hFlush rq s = hFlushCore rq s := by
+    cases hw : s.headersWritten with
+    | true => exact hFlush_core rq s (Or.inl hw)
+    | false => exact hFlush_core rq s (Or.inr (hcv hw))
+  rw [hcore]
+  obtain ⟨wq, hqw, _⟩ := hFlushCore_spec rq s ci.wf hcv
   have hm' : (rq.method != Method.head) = true := by simp [bne, hm]
   by_cases hw : s.headersWritten = true
   · obtain ⟨lc, le, hs, lh⟩ := ci.live hw
     have hcw := cWrite_none s.conn s.buf.flatten lc le
-    have e : hFlush rq s = ({ s with buf := [], conn := (cWrite s.conn s.buf.flatten).1 },
+    have e : hFlushCore rq s = ({ s with buf := [], conn := (cWrite s.conn s.buf.flatten).1 },
         (cWrite s.conn s.buf.flatten).2) := by
-      simp [hFlush, hw, hm']
+      simp [hFlushCore, hw, hm']
     rw [e] at wq hqw ⊢
     rw [hcw] at wq hqw ⊢
     refine ⟨rfl, ⟨wq, ci.nb, fun h => absurd hw (bool_ne_of_eq_false h), fun _ => ⟨lc, le, hs, ?_⟩⟩, hw, rfl, rfl, ?_⟩
@@ -218,11 +225,11 @@ theorem hFlush_stream (rq : Req) (s : St) (K : Nat) (ci : CI rq s K) (hm : (rq.m
       rw [hm]; rfl
     obtain ⟨c1, c2, c3, c4, hs, c5⟩ := cwh_stream rq s.conn s.status s.hdrs s.buf.flatten fr hok (ci.ncl hw')
       (nbOf_false rq s.status hm ci.nb)
-    have e : hFlush rq s =
+    have e : hFlushCore rq s =
         ({ s with
             buf := [], headersWritten := true, conn := (cWriteHeaders rq s.conn s.status s.hdrs s.buf.flatten).1 },
           (cWriteHeaders rq s.conn s.status s.hdrs s.buf.flatten).2) := by
-      simp [hFlush, hw', hm]
+      simp [hFlushCore, hw', hm]
     rw [e] at wq hqw ⊢
     refine ⟨c1, ⟨wq, ci.nb, fun h => (by cases h), fun _ => ⟨c2, c3, hs, ?_⟩⟩, rfl, rfl, rfl, ?_⟩
     · rw [if_neg hw]; exact c5
@@ -265,15 +272,22 @@ theorem hFlush_cl (rq : Req) (s : St) (w : WF rq s) (hm : (rq.method == Method.h
     (hFlush rq s).2 = false ∧ Written rq (hFlush rq s).1.conn false ∧ (hFlush rq s).1.conn.closed = false ∧
     (hFlush rq s).1.conn.expected = some 0 ∧ (hFlush rq s).1.conn.sent.flatten = s.buf.flatten ∧
     ∃ hs, (hFlush rq s).1.conn.head = some (s.status, hs) := by
-  obtain ⟨wq, hqw, _⟩ := hFlush_spec rq s w
+  -- the automatic Content-Length passes `flush()`'s check
+  have hcv : clValid s.hdrs = true := by
+    unfold clValid hget
+    rw [norm_nCL, hcl]
+    simp only [C06.joinWith, parseDec_toDec]
+    simp
+  rw [hFlush_core rq s (Or.inr hcv)]
+  obtain ⟨wq, hqw, _⟩ := hFlushCore_spec rq s w (fun _ => hcv)
   obtain ⟨fr, hok⟩ := w.pre hw
   obtain ⟨c1, c2, c3, c4, hs, c5⟩ := cwh_cl rq s.conn s.status s.hdrs s.buf.flatten fr hok hcl
     (nbOf_false rq s.status hm hn)
-  have e : hFlush rq s =
+  have e : hFlushCore rq s =
       ({ s with
           buf := [], headersWritten := true, conn := (cWriteHeaders rq s.conn s.status s.hdrs s.buf.flatten).1 },
         (cWriteHeaders rq s.conn s.status s.hdrs s.buf.flatten).2) := by
-    simp [hFlush, hw, hm]
+    simp [hFlushCore, hw, hm]
   rw [e] at wq hqw ⊢
   exact ⟨c1, Written_of_WF_open rq _ wq rfl c2, c2, c3, c4, hs, c5⟩
 
@@ -359,8 +373,7 @@ theorem step_clean (rq : Req) (hm : (rq.method == Method.head) = false) (s : St)
     have e : step rq s (.setHeader n v) = ({ s with hdrs := hset s.hdrs n v }, false) := by
       simp [step, hop.2]
     rw [e]
-    refine ⟨K, rfl, ⟨WF_hdrs rq s ci.wf _ (fun hw => HOK_hset _ n v (ci.wf.pre hw).2 hop.1.1.1 hop.2 hop.1.1.2
-      (fun e => absurd e hop.1.2)), ci.nb, fun hw => ?_, ci.live⟩, rfl, ?_⟩
+    refine ⟨K, rfl, ⟨WF_hdrs rq s ci.wf _ (fun hw => HOK_hset _ n v (ci.wf.pre hw).2 hop.1.1.1 hop.2 hop.1.1.2), ci.nb, fun hw => ?_, ci.live⟩, rfl, ?_⟩
     · show dget nCL (hset s.hdrs n v) = none
       unfold hset; rw [dget_dset_ne _ _ _ _ hop.1.2]; exact ci.ncl hw
     · simp [tgt, headStatus]
@@ -370,7 +383,7 @@ theorem step_clean (rq : Req) (hm : (rq.method == Method.head) = false) (s : St)
       simp [step, hop.1.1.2, hop.1.2, hop.2]
     rw [e]
     refine ⟨K, rfl, ⟨WF_hdrs rq s ci.wf _ (fun hw => HOK_hadd _ n v (ci.wf.pre hw).2 hop.1.1.1.1.1 hop.1.1.2
-      hop.1.1.1.1.2 hop.1.1.1.2), ci.nb, fun hw => ?_, ci.live⟩, rfl, ?_⟩
+      hop.1.1.1.1.2), ci.nb, fun hw => ?_, ci.live⟩, rfl, ?_⟩
     · show dget nCL (hadd s.hdrs n v) = none
       unfold hadd
       split <;> (rw [dget_dset_ne _ _ _ _ hop.1.1.1.2]; exact ci.ncl hw)
